@@ -1,2 +1,3 @@
 import GeoVerif.Props.C04
 import GeoVerif.Props.C07
+import GeoVerif.Props.C16
